@@ -470,6 +470,20 @@ pub fn cases(tier: Tier) -> Vec<Case> {
             if j == n { break; }
         }
     }
+    // every vector of length 4 over a reduced alphabet
+    let small = [0.0, -0.0, 1.0, -0.004, 2.5, -12345.678];
+    let mut idx = vec![0usize; 4];
+    let mut k4 = 0usize;
+    loop {
+        let row: Vec<f64> = idx.iter().map(|i| small[*i]).collect();
+        k4 += 1;
+        if tier == Tier::Thorough || k4 % 2 == 0 {
+            v.push(Case::Matrix { mat: vec![row], bias: vec![small[k4 % small.len()]] });
+        }
+        let mut j = 0;
+        loop { if j == 4 { break; } idx[j] += 1; if idx[j] < small.len() { break; } idx[j] = 0; j += 1; }
+        if j == 4 { break; }
+    }
     // longer vectors and matrices up to 3x4 by rotation patterns
     for n in 4..=6usize {
         for s in 0..vals.len() {
